@@ -53,10 +53,11 @@ Proof.
     destruct d as [|v [|? ?]]; try discriminate. destruct (N.ltb_spec 2 v); [discriminate|].
     injection H as <-. apply G; lia.
   - (* AS_PATH *)
-    destruct (aspath_valid _ true d) eqn:Ev; [|discriminate]. injection H as <-.
+    destruct (aspath_valid _ false d) eqn:Ev; [|discriminate]. injection H as <-.
     apply G. repeat split; try assumption. eapply aspath_valid_wf; eassumption.
   - (* NEXT_HOP *)
-    injection H as <-. apply G. repeat split; try assumption. apply Hnh. reflexivity.
+    destruct (Nat.eqb_spec (length d) 4) as [E4|]; [|discriminate]. injection H as <-.
+    apply G. repeat split; try assumption. left. exact E4.
   - (* MED *)
     destruct d as [|b0 [|b1 [|b2 [|b3 [|? ?]]]]]; try discriminate. injection H as <-.
     inv_bytes. apply G. apply of_be32_lt; assumption.
@@ -71,32 +72,36 @@ Proof.
       all: try (repeat constructor; try assumption; lia).
     + injection H as <-. apply G. repeat split; assumption.
   - (* COMMUNITY *)
+    destruct (Nat.eqb_spec (length d) 0) as [E0|E0]; [discriminate|]. cbn [negb andb] in H.
     destruct (Nat.eqb_spec (Nat.modulo (length d) 4) 0) as [Em|]; [|discriminate]. injection H as <-.
-    apply G. repeat split; assumption.
+    apply G. repeat split; try assumption. intros ->. apply E0. reflexivity.
   - (* ORIGINATOR_ID *)
     destruct d as [|b0 [|b1 [|b2 [|b3 [|? ?]]]]]; try discriminate. injection H as <-.
     inv_bytes. apply G. apply of_be32_lt; assumption.
   - (* CLUSTER_LIST *)
+    destruct (Nat.eqb_spec (length d) 0) as [E0|E0]; [discriminate|]. cbn [negb andb] in H.
     destruct (Nat.eqb_spec (Nat.modulo (length d) 4) 0) as [Em|]; [|discriminate]. injection H as <-.
-    apply G. repeat split; assumption.
+    apply G. repeat split; try assumption. intros ->. apply E0. reflexivity.
   - (* MP_REACH *) injection H as <-. apply G. repeat split; assumption.
   - (* MP_UNREACH *) injection H as <-. apply G. repeat split; assumption.
   - (* EXTENDED_COMMUNITY *)
+    destruct (Nat.eqb_spec (length d) 0) as [E0|E0]; [discriminate|]. cbn [negb andb] in H.
     destruct (Nat.eqb_spec (Nat.modulo (length d) 8) 0) as [Em|]; [|discriminate]. injection H as <-.
-    apply G. repeat split; assumption.
+    apply G. repeat split; try assumption. intros ->. apply E0. reflexivity.
   - (* AS4_PATH *)
     destruct (_ && _) eqn:Ev in H; [|discriminate]. injection H as <-.
     apply andb_prop in Ev. destruct Ev as [Ev E3]. apply andb_prop in Ev. destruct Ev as [E1 E2].
     apply G. repeat split; try assumption.
-    + eapply aspath_valid_wf4; eassumption.
+    + eapply aspath_valid_wf; eassumption.
     + intros ->. discriminate E2.
   - (* AS4_AGGREGATOR *)
     destruct (Nat.eqb_spec (length d) 8) as [El|]; [|discriminate]. injection H as <-.
     apply G. repeat split; assumption.
   - (* AIGP *) injection H as <-. apply G. repeat split; assumption.
   - (* LARGE_COMMUNITY *)
+    destruct (Nat.eqb_spec (length d) 0) as [E0|E0]; [discriminate|]. cbn [negb andb] in H.
     destruct (Nat.eqb_spec (Nat.modulo (length d) 12) 0) as [Em|]; [|discriminate]. injection H as <-.
-    apply G. repeat split; assumption.
+    apply G. repeat split; try assumption. intros ->. apply E0. reflexivity.
   - (* PREFIX_SID *) injection H as <-. apply G. repeat split; assumption.
   - (* LS *) injection H as <-. apply G. repeat split; assumption.
   - (* TUNNEL_ENCAP *) injection H as <-. apply G. repeat split; assumption.
@@ -205,20 +210,22 @@ Proof.
     destruct (ip4_of_string addr) as [v|]; [|discriminate]. injection H as <-. cbn [a_data] in Hl.
     finish_wf. unfold be32. repeat constructor; lia.
   - (* Communities *)
-    injection H as <-. cbn [a_data] in Hl. finish_wf; [apply bytes_ok_flat_be32|].
-    rewrite length_flat_be32, Nat.mul_comm. apply Nat.mod_mul. lia.
+    destruct (flat_map be32 l) as [|x0 b0] eqn:Eb; [discriminate|]. injection H as <-. cbn [a_data] in Hl.
+    pose proof (bytes_ok_flat_be32 l) as Hb. pose proof (length_flat_be32 l) as Hlen. rewrite Eb in Hb, Hlen.
+    finish_wf; try discriminate. all: rewrite Hlen, Nat.mul_comm; apply Nat.mod_mul; lia.
   - (* OriginatorId *)
     destruct (ip4_of_string s) as [v|] eqn:Ev; [|discriminate]. injection H as <-.
     finish_wf. eapply ip4_of_string_lt; eassumption.
   - (* ClusterList *)
-    destruct (parse_ids ids) as [b|] eqn:Ep; [|discriminate]. injection H as <-. cbn [a_data] in Hl.
-    destruct (parse_ids_len ids b Ep) as [Hb Hm]. finish_wf.
+    destruct (parse_ids ids) as [b|] eqn:Ep; [|discriminate]. destruct (parse_ids_len ids b Ep) as [Hb Hm].
+    destruct b as [|x0 b0]; [discriminate|]. injection H as <-. cbn [a_data] in Hl. finish_wf; discriminate.
   - (* ExtCommunities *)
-    destruct (write_extcoms l) as [b|] eqn:Ew; [|discriminate]. injection H as <-. cbn [a_data] in Hl.
-    destruct (write_extcoms_len l b Hr Ew) as [Hm Hb]. finish_wf.
+    destruct (write_extcoms l) as [b|] eqn:Ew; [|discriminate]. destruct (write_extcoms_len l b Hr Ew) as [Hm Hb].
+    destruct b as [|x0 b0]; [discriminate|]. injection H as <-. cbn [a_data] in Hl. finish_wf; discriminate.
   - (* LargeCommunities *)
-    injection H as <-. cbn [a_data] in Hl. finish_wf; [apply bytes_ok_flat_large|].
-    rewrite length_flat_large. apply Nat.mod_mul. lia.
+    pose proof (bytes_ok_flat_large l) as Hb. pose proof (length_flat_large l) as Hlen.
+    destruct (flat_map _ l) as [|x0 b0] eqn:Eb; [discriminate|]. injection H as <-. cbn [a_data] in Hl.
+    finish_wf; try discriminate. all: rewrite Hlen; apply Nat.mod_mul; lia.
 Qed.
 
 (* any value attr_from_api accepts satisfies the invariants of values accepted from the wire *)
